@@ -191,6 +191,19 @@ pub enum IntEnc {
     ZeroByte,
 }
 
+/// one in sixteen out-of-range integers is not just a few bytes too long but far
+/// beyond every size limit of the condition parser (1 KiB .. 2 KiB). Decided by
+/// bits of the value itself, so that the number of choice bytes consumed (and
+/// with it the meaning of recorded choice sequences) stays the same.
+fn lengthen(b: &mut Vec<u8>) {
+    let last = *b.last().expect("non-empty");
+    if b.len() >= 2 && last & 0x0f == 0x0f {
+        let extra = 1020 + usize::from(last >> 4) * 64 + usize::from(b[1] & 7);
+        let fill = b[1];
+        b.resize(b.len() + extra, fill);
+    }
+}
+
 pub fn encode_int(v: u64, enc: IntEnc, s: &mut Src<'_>) -> Vec<u8> {
     match enc {
         IntEnc::Canonical => enc_u64(v),
@@ -205,6 +218,7 @@ pub fn encode_int(v: u64, enc: IntEnc, s: &mut Src<'_>) -> Vec<u8> {
             let n = s.range(1, 9);
             let mut b = s.bytes(n);
             b[0] |= 0x80;
+            lengthen(&mut b);
             b
         }
         IntEnc::Oversized => {
@@ -213,6 +227,7 @@ pub fn encode_int(v: u64, enc: IntEnc, s: &mut Src<'_>) -> Vec<u8> {
             let n = s.range(9, 12);
             let mut b = s.bytes(n);
             b[0] = (b[0] & 0x7f) | 0x01;
+            lengthen(&mut b);
             b
         }
         IntEnc::ZeroByte => vec![0],
